@@ -29,6 +29,10 @@ func c12Config(rc *RunCtx) {
 	rc.Cfg["version"] = []int{2, 3, 3, 2}[r.Intn(4)]
 	pol := polFor(rc.Cfg["version"])
 	rc.Parties = []PartyCfg{{KeyIdx: 0, Pol: pol, Peer: 1, ErrHandler: r.Bool()}, {KeyIdx: 2, Pol: pol, Peer: 0, Ref: true}}
+	// how the final honest run is set up: 0 the peer aborts, the victim's user starts; 1 nobody aborts,
+	// the victim's user starts in whatever state the machine is in (the library has to abort for itself);
+	// 2 the peer aborts and then starts the run itself, the victim's user answers
+	rc.Cfg["recover"] = r.Intn(3)
 }
 
 // injRand serves a chosen value for the k-th multi-byte read, the base reader otherwise.
@@ -408,9 +412,12 @@ func c12Run(rc *RunCtx) *Violation {
 	pending = nil
 	m.Ref.SMP.Careless = false
 	m.Ref.SMP.Reset()
-	sendTLV(refotr.SMPAbortTLV(), "recovery abort")
-	w.Links[1][0][len(w.Links[1][0])-1].Class = ""
-	w.Drain(2000)
+	variant := rc.Cfg["recover"] % 3
+	if variant != 1 {
+		sendTLV(refotr.SMPAbortTLV(), "recovery abort")
+		w.Links[1][0][len(w.Links[1][0])-1].Class = ""
+		w.Drain(2000)
+	}
 	m.RefAuto, m.RefSecret = true, secretV
 	collect()
 	m.SMPResult = nil
@@ -422,9 +429,22 @@ func c12Run(rc *RunCtx) *Violation {
 	})
 	secretM = secretV
 	saved := viol
-	r := v.SMPStart("", secretV)
-	w.Enqueue(v, r)
-	w.Drain(2000)
+	var r *CallResult
+	if variant == 2 {
+		askV = false
+		r = m.SMPStart("", secretV)
+		w.Enqueue(m, r)
+		w.Drain(2000)
+		if askV {
+			r = v.SMPAnswer(secretV)
+			w.Enqueue(v, r)
+			w.Drain(2000)
+		}
+	} else {
+		r = v.SMPStart("", secretV)
+		w.Enqueue(v, r)
+		w.Drain(2000)
+	}
 	viol = saved
 	mOK := false
 	for _, x := range m.SMPResult {
@@ -434,7 +454,7 @@ func c12Run(rc *RunCtx) *Violation {
 	}
 	if !success || !mOK {
 		return rc.Viol("no.recovery", fmt.Sprintf("after the deviant traffic a fresh SMP run with equal secrets does not succeed (victim success=%v, peer success=%v, start err=%q)", success, mOK, r.Err),
-			map[string]string{"victim": fmt.Sprint(success), "peer": fmt.Sprint(mOK)})
+			map[string]string{"victim": fmt.Sprint(success), "peer": fmt.Sprint(mOK), "recover": fmt.Sprint(variant)})
 	}
 	rc.Stats.Nontrivial = deviantsProcessed >= 2
 	rc.Stats.Sig = fmt.Sprintf("v%d %s", rc.Cfg["version"], kinds)
